@@ -1193,6 +1193,9 @@ fn main() {
             s += CHUNK;
         }
     }
+    // interleave the groups (all first chunks, then all second chunks, ...): if the wall-clock cap is hit on a loaded
+    // machine every family has been covered in part instead of the first families in full
+    chunks.sort_by_key(|&(gi, s, _)| (s, gi));
     let done_cases = AtomicU64::new(0);
     let total_cases: u64 = groups.iter().map(|g| g.n as u64).sum();
     par_for(chunks.len(), |ci| {
